@@ -670,6 +670,27 @@ def worker(rec, shard, nshards, thorough, seed):
                 elif got != base3:
                     rec.violation("C07:row-order-changes-the-issues:delayed-group", file=tsv, in_time_order=base3, this_order=got)
                     break
+        # four rows, a short delay: shifting the group from another row's onset moves it across its partner
+        for rows4 in ([("5", "Green"), ("10", "(Def/A, Onset)"), ("20", "(Def/A, Offset, Delay/2 s)"), ("30", "Blue")],
+                      [("5", "Green"), ("10", "(Def/A, Offset, Delay/2 s)"), ("20", "(Def/A, Onset)"), ("30", "(Def/A, Offset)")],
+                      [("5", "(Def/A, Onset)"), ("10", "Green"), ("20", "(Delay/2 s, Def/A, Onset)"), ("21", "(Def/A, Offset)")]):
+            base4 = None
+            for perm in itertools.permutations(range(4)):
+                tsv = "onset\tHED\n" + "".join(f"{rows4[i][0]}\t{rows4[i][1]}\n" for i in perm)
+                rec.n("evaluations")
+                rec.n("distinct_nontrivial")
+                try:
+                    issues = validate_file(env, tsv, "{}")
+                except Exception as e:
+                    rec.violation(f"C07:raises:{type(e).__name__}:delay-order", file=tsv, error=repr(e)[:300])
+                    continue
+                got = sorted((i["code"], perm[i["ec_row"] - 2]) for i in issues if i["severity"] == ERR and i.get("ec_row"))
+                if base4 is None:
+                    base4 = got
+                    rec.outcome("delay-order:" + ("clean" if not got else "errors"))
+                elif got != base4:
+                    rec.violation("C07:row-order-changes-the-issues:delayed-group", file=tsv, in_time_order=base4, this_order=got)
+                    break
 
 
 def file_sequence_check(ctx):
